@@ -45,17 +45,29 @@ CONSTANTS MaxSites,      \* |S| <= MaxSites
 \* (write_variable_declares: "to_write.difference(identifiers.locally_declared)")
 Sites == {"CTX", "PAGE", "BODY", "DEFARG", "ENCL", "LOOP", "MOD", "IMP", "BUILTIN", "LATE"}
 BodyLevel == {"R_BODY", "R_ANON", "R_CALLBODY", "R_CTL", "R_ATTR", "R_FILTER", "R_FILTERARG"}
-DefReads == {"R_TOPDEF_BYNAME", "R_TOPDEF_SELF", "R_NESTED", "R_NESTED_SELF"}
+\* The call PATH of a top-level def called by name is part of the read site: where in the page body the
+\* call is written decides which generated function holds the def's stub (write_def_decl), and every
+\* such stub has to hand over context._locals(__M_locals).  R_TOPDEF_BYNAME: the call stands in the body
+\* text; _CTL: in a control line; _ANON: in an anonymous block; _CALLBODY / _CALLBODYARGS: in the body of
+\* a <%call> tag without / with args= (the def being referenced nowhere else); _NSCALL: in the body of a
+\* <%self:def> tag; _VIADEF: another top-level def, itself called by name from the body, calls it (the
+\* callee then receives the caller's context, which already carries the locals); R_TOPDEF_VIADEF_SELF:
+\* the intermediate def was reached through self., so there are no body locals anywhere on the path.
+ByNamePaths == {"R_TOPDEF_BYNAME", "R_TOPDEF_BYNAME_CTL", "R_TOPDEF_BYNAME_ANON", "R_TOPDEF_BYNAME_CALLBODY",
+                "R_TOPDEF_BYNAME_CALLBODYARGS", "R_TOPDEF_BYNAME_NSCALL", "R_TOPDEF_BYNAME_VIADEF"}
+SelfPaths == {"R_TOPDEF_SELF", "R_TOPDEF_VIADEF_SELF"}
+NestedByName == {"R_NESTED", "R_NESTED_CALLBODY"}
+DefReads == ByNamePaths \cup SelfPaths \cup NestedByName \cup {"R_NESTED_SELF"}
 AllReadSites == BodyLevel \cup DefReads \cup {"R_NAMED"}
 DirectBody == {"R_BODY", "R_CTL", "R_ATTR", "R_FILTER", "R_FILTERARG"}   \* the read is in render_body itself
-ByName == {"R_TOPDEF_BYNAME", "R_NESTED"}     \* the enclosing top-level def is called by name from the body
+ByName == ByNamePaths \cup NestedByName      \* the enclosing top-level def is called by name from the body
 
 \* which skeletons exist: a def argument needs a def, an enclosing-def local needs a nested def,
 \* a loop target encloses a read in the body.  (A loop target around a by-name def call is not
 \* generated: the property speaks of <%page> arguments and <% %> assignments only.)
 Applicable(S, r) ==
   /\ ("DEFARG" \in S => r \in DefReads)
-  /\ ("ENCL" \in S => r \in {"R_NESTED", "R_NESTED_SELF"})
+  /\ ("ENCL" \in S => r \in NestedByName \cup {"R_NESTED_SELF"})
   /\ ("LOOP" \in S => r \in BodyLevel)
   /\ ("LATE" \in S => r \in DirectBody)      \* reads from closures / defs below a late assignment are not generated
 
@@ -65,8 +77,8 @@ BodyFrame == <<"LOOP", "BODY", "PAGE">>
 Frames(r) ==
   CASE r \in {"R_BODY", "R_CTL", "R_ATTR", "R_FILTER", "R_FILTERARG"} -> <<BodyFrame>>
     [] r \in {"R_ANON", "R_CALLBODY"} -> << <<>>, BodyFrame >>     \* closure inside render_body
-    [] r \in {"R_TOPDEF_BYNAME", "R_TOPDEF_SELF"} -> << <<"DEFARG">> >>
-    [] r \in {"R_NESTED", "R_NESTED_SELF"} -> << <<>>, <<"ENCL", "DEFARG">> >>
+    [] r \in ByNamePaths \cup SelfPaths -> << <<"DEFARG">> >>
+    [] r \in NestedByName \cup {"R_NESTED_SELF"} -> << <<>>, <<"ENCL", "DEFARG">> >>
     [] r = "R_NAMED" -> << <<>> >>
 \* what context.get sees at r, topmost layer first
 CtxLayers(r) == IF r \in ByName THEN <<"BODY", "PAGE", "CTX">> ELSE <<"CTX">>
@@ -118,10 +130,10 @@ Spec == Init /\ [][Next]_vars
 (* the order of the read site wins.                                         *)
 Order(rs) ==
   CASE rs \in BodyLevel -> <<"LOOP", "BODY", "PAGE", "MOD", "IMP", "CTX", "BUILTIN">>
-    [] rs = "R_TOPDEF_BYNAME" -> <<"DEFARG", "MOD", "IMP", "BODY", "PAGE", "CTX", "BUILTIN">>
-    [] rs = "R_TOPDEF_SELF" -> <<"DEFARG", "MOD", "IMP", "CTX", "BUILTIN">>
+    [] rs \in ByNamePaths -> <<"DEFARG", "MOD", "IMP", "BODY", "PAGE", "CTX", "BUILTIN">>    \* whatever the call path
+    [] rs \in SelfPaths -> <<"DEFARG", "MOD", "IMP", "CTX", "BUILTIN">>
     [] rs = "R_NAMED" -> <<"MOD", "IMP", "CTX", "BUILTIN">>
-    [] rs = "R_NESTED" -> <<"ENCL", "DEFARG", "MOD", "IMP", "BODY", "PAGE", "CTX", "BUILTIN">>
+    [] rs \in NestedByName -> <<"ENCL", "DEFARG", "MOD", "IMP", "BODY", "PAGE", "CTX", "BUILTIN">>
     [] rs = "R_NESTED_SELF" -> <<"ENCL", "DEFARG", "MOD", "IMP", "CTX", "BUILTIN">>
 Expected == IF r \in DirectBody /\ "LATE" \in S /\ S \cap {"LOOP", "BODY", "PAGE"} = {} THEN "UnboundLocalError"
             ELSE IF Active(Order(r)) = {} THEN (IF strict THEN "NameError" ELSE "UNDEFINED")
